@@ -66,15 +66,15 @@ Definition dom_string (max : Z) (v : bytes) : Prop := dom_len (max * 4) (len v).
 Lemma codec_string max : codec_ok (dom_string max) write_string (read_string_max max).
 Proof. exact (blob_ok _ _ _ (codec_len_limited (max * 4))). Qed.
 
-(* ---------- byte arrays (spec: io.ReadFull) ---------- *)
+(* ---------- byte arrays ---------- *)
 
 Definition dom_bytes (max : Z) (v : bytes) : Prop := dom_len max (len v).
 
-Lemma codec_bytes max : codec_ok (dom_bytes max) write_bytes (spec_read_bytes_len max).
+Lemma codec_bytes max : codec_ok (dom_bytes max) write_bytes (impl_read_bytes_len max).
 Proof. exact (blob_ok _ _ _ (codec_len_limited max)). Qed.
 
-(* the code as written agrees with the spec unless the single Read meets an empty reader with
-   length 0, or fewer bytes than the length *)
+(* PRE-FIX reader (before 4d8a5a4): it agreed with io.ReadFull unless the single Read met an empty
+   reader with length 0, or fewer bytes than the length *)
 Lemma rd_read_off_trigger n r :
   ~ (n = 0 /\ r = []) -> ~ (0 < len r < n) -> rd_read n r = rd_full n r.
 Proof.
@@ -87,26 +87,26 @@ Proof.
       exfalso. apply T2. rewrite len_cons in *. lia.
 Qed.
 
-Lemma impl_read_bytes_off_trigger max s :
+Lemma old_read_bytes_off_trigger max s :
   (forall n r, len_bytes max s = Ok (n, r) -> ~ (n = 0 /\ r = []) /\ ~ (0 < len r < n)) ->
-  impl_read_bytes_len max s = spec_read_bytes_len max s.
+  old_read_bytes_len max s = impl_read_bytes_len max s.
 Proof.
-  intro H. unfold impl_read_bytes_len, spec_read_bytes_len.
+  intro H. unfold old_read_bytes_len, impl_read_bytes_len.
   destruct (len_bytes max s) as [[n r]|e] eqn:E; [|reflexivity]. cbn [bind].
   destruct (H n r eq_refl) as [T1 T2]. apply rd_read_off_trigger; assumption.
 Qed.
 
-(* ---------- extended Forge short (spec) ---------- *)
+(* ---------- extended Forge short: the arithmetic format ---------- *)
 
 Definition dom_fshort (n : N) : Prop := n < 2 ^ 23.
 
-Lemma u16_rt x rest : x < 65536 -> spec_read_uint 2 (be_enc 2 x ++ rest) = Ok (x, rest).
+Lemma u16_rt x rest : x < 65536 -> impl_read_uint 2 (be_enc 2 x ++ rest) = Ok (x, rest).
 Proof.
   intro H. pose proof (codec_uint 2 ltac:(lia)) as U. change (N.of_nat 2) with 2 in U.
   apply (ok_rt _ _ _ U). exact H.
 Qed.
 
-Lemma u16_pre x p : x < 65536 -> sprefix p (be_enc 2 x) -> exists e, spec_read_uint 2 p = Err e.
+Lemma u16_pre x p : x < 65536 -> sprefix p (be_enc 2 x) -> exists e, impl_read_uint 2 p = Err e.
 Proof.
   intros H SP. pose proof (codec_uint 2 ltac:(lia)) as U. change (N.of_nat 2) with 2 in U.
   apply (ok_pre _ _ _ U x); assumption.
@@ -116,7 +116,7 @@ Lemma codec_fshort : codec_ok dom_fshort spec_write_fshort spec_read_fshort.
 Proof.
   split.
   - intros n rest D. unfold dom_fshort in D. change (2 ^ 23) with 8388608 in D.
-    unfold spec_write_fshort, spec_read_fshort, fixed_read_fshort, read_uint. cbv zeta.
+    unfold spec_write_fshort, spec_read_fshort, spec_fshort_tail. cbv zeta.
     destruct (N.eqb_spec ((n / 32768) mod 256) 0) as [E|E].
     + rewrite u16_rt by lia. cbn [bind].
       replace (n mod 32768 <? 32768) with true by (symmetry; apply N.ltb_lt; lia).
@@ -125,7 +125,7 @@ Proof.
       replace (n mod 32768 + 32768 <? 32768) with false by (symmetry; apply N.ltb_ge; lia).
       cbn [app rd_byte bind]. f_equal. f_equal. lia.
   - intros n p D SP. unfold dom_fshort in D. change (2 ^ 23) with 8388608 in D.
-    unfold spec_write_fshort in SP. cbv zeta in SP. unfold spec_read_fshort, fixed_read_fshort, read_uint.
+    unfold spec_write_fshort in SP. cbv zeta in SP. unfold spec_read_fshort, spec_fshort_tail.
     destruct (N.eqb_spec ((n / 32768) mod 256) 0) as [E|E].
     + assert (B : n mod 32768 < 65536) by lia.
       destruct (u16_pre _ p B SP) as [e He]. rewrite He. eexists. reflexivity.
@@ -141,48 +141,176 @@ Proof.
       repeat (apply app_eq_nil in H; destruct H as [H ?]); discriminate.
 Qed.
 
-(* ---------- 1.7 byte arrays (spec) ---------- *)
+(* ---------- today's bit-operation code is the arithmetic format ---------- *)
+
+Lemma land_ones_mod a k : N.land a (N.ones k) = a mod 2 ^ k.
+Proof. apply N.land_ones. Qed.
+
+Lemma lor_shiftl_disjoint h x k : x < 2 ^ k -> N.lor (N.shiftl h k) x = h * 2 ^ k + x.
+Proof.
+  intros H. rewrite N.shiftl_mul_pow2.
+  assert (D : N.land (h * 2 ^ k) x = 0).
+  { apply N.bits_inj_0. intros n. rewrite N.land_spec.
+    destruct (N.lt_ge_cases n k) as [Hn|Hn].
+    - rewrite N.mul_pow2_bits_low by assumption. reflexivity.
+    - replace (N.testbit x n) with false; [apply andb_false_r|].
+      symmetry. destruct (N.eq_dec x 0) as [->|Hx]; [apply N.bits_0|].
+      apply N.bits_above_log2. apply N.log2_lt_pow2; [lia|].
+      eapply N.lt_le_trans; [exact H|]. apply N.pow_le_mono_r; lia. }
+  rewrite <- N.lxor_lor by exact D. rewrite N.add_nocarry_lxor by exact D. reflexivity.
+Qed.
+
+Lemma land_pow2 a k : N.land a (2 ^ k) = ((a / 2 ^ k) mod 2) * 2 ^ k.
+Proof.
+  assert (M : (a / 2 ^ k) mod 2 = 0 \/ (a / 2 ^ k) mod 2 = 1).
+  { pose proof (N.mod_upper_bound (a / 2 ^ k) 2 ltac:(discriminate)) as U.
+    set (m := (a / 2 ^ k) mod 2) in *. clearbody m. lia. }
+  apply N.bits_inj. intros n. rewrite N.land_spec, N.pow2_bits_eqb.
+  destruct (N.eqb_spec k n) as [<-|Hn].
+  - rewrite andb_true_r. rewrite N.testbit_eqb.
+    destruct M as [Z|E].
+    + rewrite Z. cbn [N.mul N.eqb]. symmetry. apply N.bits_0.
+    + rewrite E, N.mul_1_l, N.pow2_bits_true. reflexivity.
+  - rewrite andb_false_r. symmetry.
+    destruct M as [Z|E].
+    + rewrite Z. cbn [N.mul]. apply N.bits_0.
+    + rewrite E, N.mul_1_l. rewrite N.pow2_bits_eqb. apply N.eqb_neq. exact Hn.
+Qed.
+
+Lemma fshort_low n : N.land n 32767 = n mod 32768.
+Proof. change 32767 with (N.ones 15). rewrite land_ones_mod. reflexivity. Qed.
+
+Lemma fshort_high n : N.shiftr (N.land n 8355840) 15 = (n / 32768) mod 256.
+Proof.
+  change 8355840 with (N.shiftl (N.ones 8) 15).
+  rewrite N.shiftr_land, N.shiftr_shiftl_l by lia. change (15 - 15) with 0. rewrite N.shiftl_0_r.
+  rewrite land_ones_mod, N.shiftr_div_pow2. reflexivity.
+Qed.
+
+Lemma fshort_lor low : low < 32768 -> N.lor low 32768 = low + 32768.
+Proof.
+  intro H. rewrite N.lor_comm. change 32768 with (N.shiftl 1 15) at 1.
+  rewrite lor_shiftl_disjoint by exact H. change (2 ^ 15) with 32768. lia.
+Qed.
+
+Lemma impl_write_fshort_is_spec n : impl_write_fshort n = spec_write_fshort n.
+Proof.
+  unfold impl_write_fshort, spec_write_fshort. cbv zeta. rewrite fshort_low, fshort_high.
+  assert (L : n mod 32768 < 32768) by (apply N.mod_lt; lia).
+  assert (Hh : (n / 32768) mod 256 < 256) by (apply N.mod_lt; lia).
+  destruct ((n / 32768) mod 256 =? 0).
+  - apply app_nil_r.
+  - rewrite fshort_lor by exact L. rewrite (N.mod_small _ 256) by exact Hh. reflexivity.
+Qed.
+
+Lemma impl_fshort_tail_is_spec low r : low < 65536 -> impl_fshort_tail low r = spec_fshort_tail low r.
+Proof.
+  intro H. unfold impl_fshort_tail, spec_fshort_tail.
+  change 32768 with (2 ^ 15) at 1. rewrite land_pow2. change (2 ^ 15) with 32768.
+  change 255 with (N.ones 8). change 32767 with (N.ones 15). rewrite !land_ones_mod.
+  change (2 ^ 15) with 32768. change (2 ^ 8) with 256.
+  destruct (N.ltb_spec low 32768) as [L|L].
+  - replace (low / 32768) with 0 by lia. reflexivity.
+  - replace ((low / 32768) mod 2) with 1 by lia. cbn [N.mul N.eqb Pos.mul Pos.eqb].
+    destruct (rd_byte r) as [[high r']|e]; [|reflexivity]. cbn [bind].
+    rewrite lor_shiftl_disjoint by (apply N.mod_lt; lia). change (2 ^ 15) with 32768.
+    rewrite land_ones_mod. change (2 ^ 8) with 256. f_equal. f_equal. lia.
+Qed.
+
+(* on an encoding, or any prefix of one, the two-byte short that is read is < 65536 *)
+Lemma impl_read_fshort_is_spec s : wf_bytes (firstn 2 s) -> impl_read_fshort s = spec_read_fshort s.
+Proof.
+  intro W. unfold impl_read_fshort, read_fshort_with, spec_read_fshort, impl_read_uint.
+  destruct (rd_full 2 s) as [[b r]|e] eqn:E; [|reflexivity]. cbn [bind].
+  apply impl_fshort_tail_is_spec.
+  destruct (rd_full_ok_len _ _ _ _ E) as [Lb ->].
+  assert (Wb : wf_bytes b).
+  { assert (L2 : length b = 2%nat) by (unfold len in Lb; lia).
+    destruct b as [|a [|c [|d b']]]; try discriminate L2. exact W. }
+  pose proof (be_val_lt b Wb) as B. rewrite Lb in B. exact B.
+Qed.
+
+Lemma be_enc_wf k : forall x, wf_bytes (be_enc k x).
+Proof.
+  induction k as [|k IH]; intro x; [constructor|].
+  cbn [be_enc]. apply Forall_app. split; [apply IH|]. constructor; [|constructor]. apply N.mod_lt. lia.
+Qed.
+
+Lemma spec_write_fshort_head n : exists a b t, spec_write_fshort n = a :: b :: t /\ a < 256 /\ b < 256.
+Proof.
+  unfold spec_write_fshort. cbv zeta.
+  assert (E : forall x, exists a b, be_enc 2 x = [a; b] /\ a < 256 /\ b < 256).
+  { intro x. cbn [be_enc app]. eexists. eexists. split; [reflexivity|]. split; apply N.mod_lt; lia. }
+  destruct ((n / 32768) mod 256 =? 0).
+  - destruct (E (n mod 32768)) as (a & b & -> & Ha & Hb). exists a, b, []. tauto.
+  - destruct (E (n mod 32768 + 32768)) as (a & b & -> & Ha & Hb). eexists a, b, _. cbn [app]. tauto.
+Qed.
+
+Lemma wf_first2_prefix (e p q : bytes) : wf_bytes (firstn 2 e) -> e = p ++ q -> wf_bytes (firstn 2 p).
+Proof.
+  intros W ->. destruct p as [|a [|b p]]; cbn [firstn]; try constructor.
+  - cbn [app firstn] in W. inversion W; subst. assumption.
+  - constructor.
+  - cbn [app firstn] in W. inversion W; subst. assumption.
+  - cbn [app firstn] in W. inversion W as [|? ? ? W2]; subst. inversion W2; subst. constructor; [assumption | constructor].
+Qed.
+
+Lemma codec_fshort_impl : codec_ok dom_fshort impl_write_fshort impl_read_fshort.
+Proof.
+  destruct codec_fshort as [rt pre ne]. split.
+  - intros n rest D. rewrite impl_write_fshort_is_spec, impl_read_fshort_is_spec; [apply rt; exact D|].
+    destruct (spec_write_fshort_head n) as (a & b & t & -> & Ha & Hb). cbn [app firstn].
+    constructor; [exact Ha|]. constructor; [exact Hb | constructor].
+  - intros n p D SP. rewrite impl_write_fshort_is_spec in SP. rewrite impl_read_fshort_is_spec; [eapply pre; eassumption|].
+    destruct SP as (q & _ & E). apply (wf_first2_prefix _ p q) in E; [exact E|].
+    destruct (spec_write_fshort_head n) as (a & b & t & -> & Ha & Hb). cbn [firstn].
+    constructor; [exact Ha|]. constructor; [exact Hb | constructor].
+  - intros n D. rewrite impl_write_fshort_is_spec. apply ne. exact D.
+Qed.
+
+(* ---------- 1.7 byte arrays ---------- *)
 
 Definition dom_len17 (n : N) : Prop := n <= forge_max.
 
-Lemma codec_len17 : codec_ok dom_len17 spec_write_fshort (len_bytes17 true true).
+Lemma codec_len17 : codec_ok dom_len17 impl_write_fshort len_bytes17.
 Proof.
   assert (F : forall n, dom_len17 n -> dom_fshort n).
   { intros n D. unfold dom_len17, forge_max in D. unfold dom_fshort. change (2 ^ 23) with 8388608. lia. }
   split.
-  - intros n rest D. unfold len_bytes17. change (read_fshort true true) with spec_read_fshort.
-    rewrite (ok_rt _ _ _ codec_fshort) by (apply F; exact D). cbn [bind].
+  - intros n rest D. unfold len_bytes17, len_bytes17_with.
+    rewrite (ok_rt _ _ _ codec_fshort_impl) by (apply F; exact D). cbn [bind].
     replace (forge_max <? n) with false by (symmetry; apply N.ltb_ge; exact D). reflexivity.
-  - intros n p D SP. unfold len_bytes17. change (read_fshort true true) with spec_read_fshort.
-    destruct (ok_pre _ _ _ codec_fshort n p (F n D) SP) as [e E]. rewrite E. eexists. reflexivity.
-  - intros n D. apply (ok_ne _ _ _ codec_fshort). apply F. exact D.
+  - intros n p D SP. unfold len_bytes17, len_bytes17_with.
+    destruct (ok_pre _ _ _ codec_fshort_impl n p (F n D) SP) as [e E]. rewrite E. eexists. reflexivity.
+  - intros n D. apply (ok_ne _ _ _ codec_fshort_impl). apply F. exact D.
 Qed.
 
 Lemma codec_bytes17 :
-  codec_ok (fun v => len v <= forge_max) (fun v => spec_write_fshort (len v) ++ v) (read_bytes17 true true true).
+  codec_ok (fun v => len v <= forge_max) (fun v => impl_write_fshort (len v) ++ v) impl_read_bytes17.
 Proof. exact (blob_ok _ _ _ codec_len17). Qed.
 
 Lemma write_bytes17_ok ext v e :
-  write_bytes17 true ext v = Ok e -> len v <= forge_max /\ e = spec_write_fshort (len v) ++ v.
+  write_bytes17 ext v = Ok e -> len v <= forge_max /\ e = impl_write_fshort (len v) ++ v.
 Proof.
-  unfold write_bytes17, write_fshort. destruct ext.
+  unfold write_bytes17, write_bytes17_with. destruct ext.
   - destruct (N.ltb_spec forge_max (len v)) as [L|L]; [discriminate|]. intro HH. inversion HH. split; [lia | reflexivity].
   - destruct (N.ltb_spec 32767 (len v)) as [L|L]; [discriminate|]. intro HH. inversion HH.
     split; [unfold forge_max; lia | reflexivity].
 Qed.
 
-Lemma len_bytes17_bound fx1 fx3 s n r : len_bytes17 fx1 fx3 s = Ok (n, r) -> n <= forge_max.
+(* holds for every way of reading the short, today's and the pre-fix one *)
+Lemma len_bytes17_bound rfs s n r : len_bytes17_with rfs s = Ok (n, r) -> n <= forge_max.
 Proof.
-  unfold len_bytes17. destruct (read_fshort fx1 fx3 s) as [[m r']|e]; [|discriminate]. cbn [bind].
+  unfold len_bytes17_with. destruct (rfs s) as [[m r']|e]; [|discriminate]. cbn [bind].
   destruct (N.ltb_spec forge_max m) as [L|L]; [discriminate|]. intro HH. inversion HH; subst. assumption.
 Qed.
 
 (* an over-limit extended short is rejected by the header *)
 Lemma len_bytes17_rejects n tail : dom_fshort n -> forge_max < n ->
-  len_bytes17 true true (spec_write_fshort n ++ tail) = Err EOverLimit.
+  len_bytes17 (impl_write_fshort n ++ tail) = Err EOverLimit.
 Proof.
-  intros D H. unfold len_bytes17. change (read_fshort true true) with spec_read_fshort.
-  rewrite (ok_rt _ _ _ codec_fshort) by exact D. cbn [bind].
+  intros D H. unfold len_bytes17, len_bytes17_with.
+  rewrite (ok_rt _ _ _ codec_fshort_impl) by exact D. cbn [bind].
   replace (forge_max <? n) with true by (symmetry; apply N.ltb_lt; exact H). reflexivity.
 Qed.
 
@@ -280,12 +408,12 @@ Proof.
 Qed.
 
 Lemma codec_properties :
-  codec_ok (dom_list dom_property) write_properties (read_properties true).
+  codec_ok (dom_list dom_property) write_properties (impl_read_properties).
 Proof. apply codec_counted. apply codec_property. Qed.
 
 (* ---------- UTF ---------- *)
 
-Lemma codec_utf : codec_ok (fun v => len v < 65536) write_utf (read_utf true).
+Lemma codec_utf : codec_ok (fun v => len v < 65536) write_utf (impl_read_utf).
 Proof.
   pose proof (codec_uint 2 ltac:(lia)) as U. change (N.of_nat 2) with 2 in U.
   exact (blob_ok _ _ _ U).
@@ -375,7 +503,7 @@ Lemma codec_key_array :
   codec_ok (dom_list dom_key) (write_counted (fun k => write_string (key_string k))) read_key_array.
 Proof. apply codec_counted. apply codec_key. Qed.
 
-(* minimal keys: the spec reader is the inverse of key.Minimal on valid keys *)
+(* minimal keys: ReadMinimalKey is the inverse of key.Minimal on valid keys *)
 Lemma beq_bytes_true a b : beq_bytes a b = true -> a = b.
 Proof. apply beq_bytes_eq. Qed.
 
@@ -390,10 +518,10 @@ Qed.
 
 Definition dom_minkey (k : key) : Prop := dom_key k /\ dom_string0 (key_minimal k).
 
-Lemma read_minimal_key_eq s : spec_read_minimal_key s = dmap parse_identifier_key read_string s.
+Lemma read_minimal_key_eq s : impl_read_minimal_key s = dmap parse_identifier_key read_string s.
 Proof. reflexivity. Qed.
 
-Lemma codec_minimal_key : codec_ok dom_minkey write_minimal_key (read_minimal_key true).
+Lemma codec_minimal_key : codec_ok dom_minkey write_minimal_key (impl_read_minimal_key).
 Proof.
   apply (dmap_ok dom_string0 dom_minkey write_string read_string parse_identifier_key key_minimal
                  (codec_string default_max)).
@@ -401,67 +529,75 @@ Proof.
   - intros k [D _]. apply parse_key_minimal. exact D.
 Qed.
 
-(* ---------- the code as written: refutations by concrete inputs ---------- *)
+(* ---------- HISTORY: the PRE-FIX code (old_X) refuted by concrete inputs, and today's code (impl_X)
+   on the same inputs.  These are facts about the code before the fix commits; the judge no longer
+   tolerates any of these behaviours. ---------- *)
 
-(* finding 1: ReadUint16 on the one-byte prefix 0x12 of an encoding returns 0x1200 with a nil error *)
-Lemma impl_uint16_prefix_accepted :
-  sprefix [18] (write_uint 2 4660) /\ impl_read_uint 2 [18] = Ok (4608, []).
-Proof. split; [exists [52]; split; [discriminate | reflexivity] | reflexivity]. Qed.
+(* finding C03-1 (fixed by 2257945): ReadUint16 on the one-byte prefix 0x12 returned 0x1200, nil *)
+Lemma old_uint16_prefix_accepted :
+  sprefix [18] (write_uint 2 4660) /\ old_read_uint 2 [18] = Ok (4608, []) /\
+  impl_read_uint 2 [18] = Err EUnexpectedEOF.
+Proof. split; [exists [52]; split; [discriminate | reflexivity] | split; reflexivity]. Qed.
 
-(* finding 1 reaches ReadUTF: the prefix [0] of the encoding of "" is decoded as "" *)
-Lemma impl_utf_prefix_accepted :
-  sprefix [0] (write_utf []) /\ read_utf false [0] = Ok ([], []).
-Proof. split; [exists [0]; split; [discriminate | reflexivity] | reflexivity]. Qed.
+(* C03-1 reached ReadUTF: the prefix [0] of the encoding of "" was decoded as "" *)
+Lemma old_utf_prefix_accepted :
+  sprefix [0] (write_utf []) /\ old_read_utf [0] = Ok ([], []) /\ impl_read_utf [0] = Err EUnexpectedEOF.
+Proof. split; [exists [0]; split; [discriminate | reflexivity] | split; reflexivity]. Qed.
 
-(* finding 1 reaches ReadUUIDIntArray: 13 of 16 bytes are accepted *)
-Lemma impl_uuid_ints_prefix_accepted :
+(* C03-1 reached ReadUUIDIntArray: 13 of 16 bytes were accepted *)
+Lemma old_uuid_ints_prefix_accepted :
   let u := [1;2;3;4;5;6;7;8;9;10;11;12;13;14;15;16] in
   dom_uuid u /\ sprefix (firstn 13 u) (write_uuid_ints u) /\
-  read_uuid_ints false (firstn 13 u) = Ok ([1;2;3;4;5;6;7;8;9;10;11;12;13;0;0;0], []).
+  old_read_uuid_ints (firstn 13 u) = Ok ([1;2;3;4;5;6;7;8;9;10;11;12;13;0;0;0], []) /\
+  impl_read_uuid_ints (firstn 13 u) = Err EUnexpectedEOF.
 Proof.
-  cbv zeta. split; [|split].
+  cbv zeta. split; [|split; [|split]].
   - split; [reflexivity|]. repeat constructor.
   - exists [14;15;16]. split; [discriminate | vm_compute; reflexivity].
   - vm_compute. reflexivity.
+  - vm_compute. reflexivity.
 Qed.
 
-(* finding 2: the empty array at the end of the input does not round-trip ... *)
-Lemma impl_bytes_empty_at_end :
-  impl_read_bytes_len default_max (write_bytes [] ++ []) = Err EEOF.
-Proof. vm_compute. reflexivity. Qed.
+(* finding C03-2 (fixed by 4d8a5a4): the empty array at the end of the input did not round-trip ... *)
+Lemma old_bytes_empty_at_end :
+  old_read_bytes_len default_max (write_bytes [] ++ []) = Err EEOF /\
+  impl_read_bytes_len default_max (write_bytes [] ++ []) = Ok ([], []).
+Proof. split; vm_compute; reflexivity. Qed.
 
-(* ... and a truncated array comes back zero padded *)
-Lemma impl_bytes_prefix_accepted :
+(* ... and a truncated array came back zero padded *)
+Lemma old_bytes_prefix_accepted :
   sprefix [5;1;2] (write_bytes [1;2;3;4;5]) /\
-  impl_read_bytes_len default_max [5;1;2] = Ok ([1;2;0;0;0], []).
-Proof. split; [exists [3;4;5]; split; [discriminate | vm_compute; reflexivity] | vm_compute; reflexivity]. Qed.
+  old_read_bytes_len default_max [5;1;2] = Ok ([1;2;0;0;0], []) /\
+  impl_read_bytes_len default_max [5;1;2] = Err EUnexpectedEOF.
+Proof. split; [exists [3;4;5]; split; [discriminate | vm_compute; reflexivity] | split; vm_compute; reflexivity]. Qed.
 
-(* finding 3: a 300-byte 1.7 array is written with length byte 44 and read back as 44 bytes *)
-Lemma impl_bytes17_300 :
+(* finding C03-3 (fixed by 6e760d1): a 300-byte 1.7 array was written with length byte 44 and read back as 44 bytes *)
+Lemma old_bytes17_300 :
   let v := repeat 7 300 in
-  write_bytes17 false true v = Ok (44 :: v) /\
-  read_bytes17 true true false (44 :: v) = Ok (repeat 7 44, repeat 7 256) /\
-  read_bytes17 false false false (44 :: v) = Ok (repeat 7 44, repeat 7 256).
-Proof. cbv zeta. split; [|split]; vm_compute; reflexivity. Qed.
+  old_write_bytes17 true v = Ok (44 :: v) /\
+  old_read_bytes17 (44 :: v) = Ok (repeat 7 44, repeat 7 256) /\
+  write_bytes17 true v = Ok (1 :: 44 :: v) /\
+  impl_read_bytes17 (1 :: 44 :: v) = Ok (v, []).
+Proof. cbv zeta. split; [|split; [|split]]; vm_compute; reflexivity. Qed.
 
-(* finding 3: and the one-byte format is not the Forge / Velocity format even for short arrays *)
-Lemma impl_fshort_differs : impl_write_fshort 5 = [5] /\ spec_write_fshort 5 = [0; 5].
-Proof. split; reflexivity. Qed.
+(* C03-3: the one-byte format was not the Forge / Velocity format even for short arrays *)
+Lemma old_fshort_differs : old_write_fshort 5 = [5] /\ spec_write_fshort 5 = [0; 5] /\ impl_write_fshort 5 = [0; 5].
+Proof. split; [|split]; reflexivity. Qed.
 
-(* finding 4: ReadProperties on a negative count panics instead of returning an error *)
-Lemma impl_properties_negative_panics tail :
-  read_properties false (write_varint (-1) ++ tail) = Err EPanic /\
-  read_properties true (write_varint (-1) ++ tail) = Err ENegLen.
+(* finding C03-4 (fixed by 94741d1): ReadProperties on a negative count panicked instead of returning an error *)
+Lemma old_properties_negative_panics tail :
+  old_read_properties (write_varint (-1) ++ tail) = Err EPanic /\
+  impl_read_properties (write_varint (-1) ++ tail) = Err ENegLen.
 Proof.
   split; apply len_counted_rejects; unfold dom_varint; lia.
 Qed.
 
-(* finding 5: ReadMinimalKey forgets an explicit namespace *)
-Lemma impl_minimal_key_namespace :
+(* finding C03-5 (fixed by 23e030f): ReadMinimalKey forgot an explicit namespace *)
+Lemma old_minimal_key_namespace :
   let k := ([102;111;111], [98;97;114]) in          (* foo:bar *)
   dom_minkey k /\
-  impl_read_minimal_key (write_minimal_key k) = Ok ((minecraft, [102;111;111;58;98;97;114]), []) /\
-  spec_read_minimal_key (write_minimal_key k) = Ok (k, []).
+  old_read_minimal_key (write_minimal_key k) = Ok ((minecraft, [102;111;111;58;98;97;114]), []) /\
+  impl_read_minimal_key (write_minimal_key k) = Ok (k, []).
 Proof.
   cbv zeta. split; [|split]; try (vm_compute; reflexivity).
   unfold dom_minkey, dom_key, dom_string0, dom_string, dom_len. cbn.
@@ -485,15 +621,16 @@ Proof.
     apply Forall_app. split; [exact W | apply wf_zeros].
 Qed.
 
-Lemma alloc_bounded_utf_lemma fx1 s n r : wf_bytes s -> read_uint fx1 2 s = Ok (n, r) -> n < 65536.
+Lemma alloc_bounded_utf_lemma s n r : wf_bytes s ->
+  (impl_read_uint 2 s = Ok (n, r) \/ old_read_uint 2 s = Ok (n, r)) -> n < 65536.
 Proof.
   intros W. assert (B : forall b, len b = 2 -> wf_bytes b -> be_val b < 65536).
   { intros b Lb Wb. pose proof (be_val_lt b Wb) as H. rewrite Lb in H. exact H. }
-  destruct fx1; unfold read_uint, spec_read_uint, impl_read_uint.
-  - destruct (rd_full 2 s) as [[b r']|e] eqn:E; [|discriminate]. cbn [bind]. intro H. inversion H; subst.
+  unfold impl_read_uint, old_read_uint. intros [H|H].
+  - destruct (rd_full 2 s) as [[b r']|e] eqn:E; [|discriminate]. cbn [bind] in H. inversion H; subst.
     destruct (rd_full_ok_len _ _ _ _ E) as [Lb Es]. apply B; [exact Lb|].
     rewrite Es in W. apply Forall_app in W. tauto.
-  - destruct (rd_read 2 s) as [[b r']|e] eqn:E; [|discriminate]. cbn [bind]. intro H. inversion H; subst.
+  - destruct (rd_read 2 s) as [[b r']|e] eqn:E; [|discriminate]. cbn [bind] in H. inversion H; subst.
     destruct (rd_read_buf _ _ _ _ E W) as [Lb Wb]. apply B; assumption.
 Qed.
 
